@@ -36,12 +36,13 @@ def baseline(tree):
 
 def main():
     prop, wt = sys.argv[1], sys.argv[2]
-    extra_props = sys.argv[3:]
+    extra_props = [a for a in sys.argv[3:] if not a.startswith("--")]
+    suffix = next((a.split("=", 1)[1] for a in sys.argv[3:] if a.startswith("--suffix=")), "")
     env = dict(os.environ, PYTHONPATH=f"{wt}/hugr-py/src")
     outs = sorted(d for d in os.listdir(f"{wt}/out") if os.path.isdir(f"{wt}/out/{d}") and os.path.exists(f"{wt}/out/{d}/patch.diff"))
     for i in outs:
         d = f"{wt}/out/{i}"
-        sid = f"{prop}-{i}"
+        sid = f"{prop}-{suffix}{i}"
         print(f"=== {sid}")
         rc, o = sh("git status --short --untracked-files=no", cwd=wt)
         if o.strip():
